@@ -221,6 +221,33 @@ func c10Record(tier string, seed int64, emit func(interface{})) {
 			break
 		}
 	}
+	// ordered amplicons: linear parts whose outermost sites (either orientation) sit 0, 1, 2 letters from the ends,
+	// for a built-in enzyme, for HgaI (overhang as long as the site) and for a random enzyme of that kind
+	{
+		var site string
+		for {
+			site = randDNA(rng, 3+rng.Intn(4))
+			if site != rcDNA(site) {
+				break
+			}
+		}
+		for _, e := range []specEnzyme{builtinEnzymes["BsaI"], {"GACGC", "GCGTC", 5, 5}, {site, rcDNA(site), rng.Intn(6), len(site)}} {
+			for _, o := range [][2]string{{e.Site, e.Rsite}, {e.Site, e.Site}, {e.Rsite, e.Rsite}, {e.Rsite, e.Site}} {
+				for d := 0; d < 3; d++ {
+					for try := 0; try < 50; try++ {
+						gap := func() string { return randDNA(rng, e.Skip+e.Ovh+rng.Intn(3)) }
+						p := randDNA(rng, d) + o[0] + gap() + randDNA(rng, 8+rng.Intn(12)) + gap() + o[1] + randDNA(rng, []int{d, 0, 7}[rng.Intn(3)])
+						if countSites(p, e, false) != 2 {
+							continue
+						}
+						g++
+						cut(e, "", p, false)
+						break
+					}
+				}
+			}
+		}
+	}
 	for i := 0; i < nLayouts; i++ {
 		var e specEnzyme
 		name := ""
@@ -229,6 +256,8 @@ func c10Record(tier string, seed int64, emit func(interface{})) {
 			e = builtinEnzymes[name]
 		} else if rng.Intn(4) == 0 { // odd-length sites whose flanks are reverse-complementary (PleI-like)
 			e = []specEnzyme{{"GAGTC", "GACTC", 4, 1}, {"GAC", "GTC", 1, 1}, {"CCTGG", "CCAGG", 2, 2}}[rng.Intn(3)]
+		} else if rng.Intn(4) == 0 { // real type IIS enzymes whose overhang is as long as the site, or that cut far away
+			e = []specEnzyme{{"GACGC", "GCGTC", 5, 5}, {"GCAGC", "GCTGC", 8, 4}, {"GGATG", "CATCC", 9, 4}, {"GCTCTTC", "GAAGAGC", 1, 3}, {"CGTCTC", "GAGACG", 1, 4}}[rng.Intn(5)]
 		} else { // random custom non-palindromic enzyme
 			for {
 				site := make([]byte, 3+rng.Intn(5))
@@ -236,6 +265,9 @@ func c10Record(tier string, seed int64, emit func(interface{})) {
 					site[j] = "ACGT"[rng.Intn(4)]
 				}
 				e = specEnzyme{string(site), rcDNA(string(site)), rng.Intn(4), 1 + rng.Intn(3)}
+				if rng.Intn(3) == 0 {
+					e.Skip, e.Ovh = rng.Intn(11), 1+rng.Intn(len(site))
+				}
 				if e.Site != e.Rsite && e.Ovh <= len(e.Site) {
 					break
 				}
@@ -245,6 +277,23 @@ func c10Record(tier string, seed int64, emit func(interface{})) {
 		// linear part
 		g++
 		s := genLayout(rng, e, k, 20, maxLen, false)
+		if k > 0 && rng.Intn(2) == 0 { // an ordered amplicon: the outermost sites sit flush (or nearly) against the ends
+			first, last := -1, -1
+			for j := 0; j+len(e.Site) <= len(s); j++ {
+				if s[j:j+len(e.Site)] == e.Site || s[j:j+len(e.Site)] == e.Rsite {
+					if first < 0 {
+						first = j
+					}
+					last = j
+				}
+			}
+			if end := last + len(e.Site) + rng.Intn(e.Ovh+e.Skip+3); first >= 0 && end <= len(s) && rng.Intn(4) > 0 {
+				s = s[:end]
+			}
+			if d := rng.Intn(e.Ovh + e.Skip + 3); first >= d && rng.Intn(2) == 0 {
+				s = s[first-d:]
+			}
+		}
 		if rng.Intn(3) == 0 {
 			s = strings.ToLower(s)
 		}
